@@ -333,6 +333,23 @@ def valid_requests(d):
     alloc = lambda k, a, proj, user: {   # noqa
         'allocations': a, 'consumer_generation': cg.get(k), 'project_id': proj, 'user_id': user,
         'consumer_type': 'INSTANCE'}
+    from vp import reqs as _rq
+    old = {}
+    for mv in OLD_VERSIONS[('PUT', '/allocations/{consumer_uuid}')]:
+        r = _rq.put_alloc(K1, {P1: {'VCPU': 3}}, mv=mv, project=PROJ_A, user=USER_A,
+                          cgen=cg.get(K1))
+        r.pop('tag', None)
+        old[('PUT', '/allocations/{consumer_uuid}', mv)] = r
+    old[('PUT', '/resource_classes/{name}', '1.6')] = R(
+        'PUT', '/resource_classes/' + RC_FREE, {'name': 'CUSTOM_RENAMED_RC'}, mv='1.6')
+    old[('PUT', RPU + '/aggregates', '1.1')] = R('PUT', rp(P1, '/aggregates'), [A(2)], mv='1.1')
+    old[('POST', '/allocations', '1.13')] = _rq.post_allocs(
+        {K(3): {'allocs': {P1: {'VCPU': 1}}, 'project': PROJ_A, 'user': USER_A}}, mv='1.13')
+    old[('POST', '/allocations', '1.13')].pop('tag', None)
+    old[('POST', RP, '1.0')] = R('POST', RP, {'name': 'new-rp', 'uuid': P(9)}, mv='1.0')
+    old[('PUT', RPU, '1.0')] = R('PUT', rp(P3), {'name': 'renamed-rp'}, mv='1.0')
+    OLD_REQUESTS.clear()
+    OLD_REQUESTS.update(old)
     return {
         ('GET', '/'): R('GET', '/'),
         ('GET', ''): R('GET', ''),
@@ -394,8 +411,20 @@ def valid_requests(d):
     }
 
 
+# operations whose handler is registered separately per microversion range: the same (valid for
+# that version) request once per range -- the policy check must be in every one of them
+OLD_VERSIONS = {
+    ('PUT', '/allocations/{consumer_uuid}'): ('1.0', '1.8', '1.12', '1.28', '1.34'),
+    ('PUT', '/resource_classes/{name}'): ('1.6',),
+    ('PUT', '/resource_providers/{uuid}/aggregates'): ('1.1',),
+    ('POST', '/allocations'): ('1.13',),
+    ('POST', '/resource_providers'): ('1.0',),
+    ('PUT', '/resource_providers/{uuid}'): ('1.0',),
+}
+OLD_REQUESTS = {}
 VARIANTS = ('valid', 'other_project', 'unknown', 'method', 'accept', 'ctype', 'mv1.0',
-            'own_then_other', 'other_then_own')
+            'own_then_other', 'other_then_own') + tuple(sorted(
+                {'old:' + v for vs in OLD_VERSIONS.values() for v in vs}))
 _SWAP = [(P1, UNKNOWN_UUID), (P3, UNKNOWN_UUID), (K1, UNKNOWN_UUID),
          (RC_USED, 'CUSTOM_NO_SUCH'), (RC_FREE, 'CUSTOM_NO_SUCH'),
          (TR_USED, 'CUSTOM_NO_SUCH'), (TR_FREE, 'CUSTOM_NO_SUCH')]
@@ -405,6 +434,9 @@ def variant(req, route, method, kind):
     """Derive a request variant, or None when the variant does not exist for this operation."""
     if kind == 'valid':
         return req
+    if kind.startswith('old:'):
+        r = OLD_REQUESTS.get((method, route, kind[4:]))
+        return dict(r) if r is not None else None
     q = dict(req)
     if kind == 'other_project':
         if route != '/usages':
@@ -917,7 +949,7 @@ def run(ctx):
                     _replay(cfg, c['rules'], req, cname, exp, ref))
         matrices.setdefault(cfg, {})[key] = tuple(row)
         predicted.setdefault(cfg, {})[key] = tuple(prow)
-        if cfg == 'default' and var in ('valid', 'other_project'):
+        if cfg == 'default' and (var in ('valid', 'other_project') or var.startswith('old:')):
             default_matrix[oid] = dict(zip(cnames, row))
 
     # "overriding exactly the documented rule of an operation is what grants or denies exactly
